@@ -46,7 +46,10 @@ def chain_text(chain, variant="join"):
 
 def run(pid, entries, verdict, ncrates=16):
     """entries: [(name, chain, variant)] -> observations {name: [ {k, mv, mcalls, tv, tcalls} ]}"""
-    ncr = max(1, min(ncrates, (len(entries) + 19) // 20))
+    # at most ~2 300 functions per crate (a rustc process of that size takes 2.5-4 GB): big corpora get more crates, and then
+    # at most 10 of them are compiled at a time (16 parallel rustc processes of a thorough corpus exhausted 62 GB)
+    ncr = max(1, min(max(ncrates, (len(entries) + 2299) // 2300), (len(entries) + 19) // 20))
+    jobs = 10 if ncr > ncrates else None
     crates = {}
     for i, e in enumerate(entries):
         crates.setdefault(f"{pid.lower()}_sem_{i % ncr}", []).append(e)
@@ -59,7 +62,7 @@ def run(pid, entries, verdict, ncrates=16):
         if not cr:
             break
         spans = SG.write_workspace(ws, cr)
-        ok, diags, err = G.cargo_build(ws)
+        ok, diags, err = G.cargo_build(ws, jobs)
         if ok:
             crates = cr
             break
